@@ -15,7 +15,7 @@ SIM_LAYOUT = """
 #include <stdlib.h>
 enum { TS_inactive = 0, TS_initializing = 1, TS_alive = 2, TS_errored = 3, TS_killed = 4, TS_size_ = 5 };   /* TrackStatus (bound) */
 #define INVALID_ID ((size_type)-1)
-typedef struct { real_type step; size_type action; } StepLimit;    /* { real_type step{inf}; ActionId action{}; } */
+typedef struct { real_type step; size_type action; } StepLimit;    /* { real_type step{}; ActionId action{}; } */
 typedef struct { real_type* time; real_type* step_length; size_type* post_step_action; size_type* along_step_action; size_type* num_steps; signed char* status; size_type size_; } SimStateRef;
 typedef struct { SimStateRef const* states_; size_type track_slot_; } SimTrackViewR;
 /* Collection[track_slot_]: CELER_EXPECT(i < size) + index */
@@ -27,6 +27,10 @@ typedef struct { SimStateRef const* states_; size_type track_slot_; } SimTrackVi
 #define S_(member) (self->states_->member[self->track_slot_])
 """
 SIM_RULES = Q_RULES + [
+    Rule(r"StepLimit limit;", "StepLimit limit = {0, INVALID_ID};", (0, 1), note="default member initializers { step{}, action{} }"),
+    Rule(r"limit\.action = \{\};", "limit.action = INVALID_ID;", (0, 1), note="default OpaqueId = invalid"),
+    Rule(r"this->reset_step_limit\(limit\);", "STVR_reset_step_limit(self, &limit);", (0, 1), note="member call (body extracted below)"),
+    Rule(r"this->along_step_action\(\{\}\);", "STVR_along_step_action_set(self, INVALID_ID);", (0, 1), note="member call (body extracted below)"),
     Rule(r"states_\.(\w+)\[track_slot_\]", r"COLL(\1, self->track_slot_)", "*", note="Collection[track_slot_] of the state reference"),
     Rule(r"numeric_limits<real_type>::infinity\(\)", "__builtin_inf()", "*", note="numeric_limits::infinity"),
     Rule(r"static_cast<bool>\(sl\.action\)|\(\(bool\)\(sl\.action\)\)", "(sl->action != INVALID_ID)", "*", note="OpaqueId::operator bool"),
@@ -67,6 +71,12 @@ SIM_OPS = {
                    "status >= 0 && status < 5", "S_(status)", ["S_(status) == status"], "int s; STVR_status_set(&v, s);"),
     "post_step_action_set": (r"CELER_FUNCTION void SimTrackView::post_step_action\(ActionId action\)", "void STVR_post_step_action_set(SimTrackViewR* self, size_type action)",
                              "action != INVALID_ID", "S_(post_step_action)", ["S_(post_step_action) == action"], "size_type a; STVR_post_step_action_set(&v, a);"),
+    "reset_step_limit0": (r"CELER_FUNCTION void SimTrackView::reset_step_limit\(\)", "void STVR_reset_step_limit0(SimTrackViewR* self)",
+                          "1", "S_(step_length), S_(post_step_action), S_(along_step_action)",
+                          ["S_(step_length) == __builtin_inf() && S_(post_step_action) == INVALID_ID && S_(along_step_action) == INVALID_ID   /* no limit, no action */"],
+                          "STVR_reset_step_limit0(&v);"),
+    "along_step_action_set": (r"CELER_FORCEINLINE_FUNCTION void SimTrackView::along_step_action\(ActionId action\)", "void STVR_along_step_action_set(SimTrackViewR* self, size_type action)",
+                              "1", "S_(along_step_action)", ["S_(along_step_action) == action"], "size_type a; STVR_along_step_action_set(&v, a);"),
     "step_length_set": (r"CELER_FUNCTION void SimTrackView::step_length\(real_type length\)", "void STVR_step_length_set(SimTrackViewR* self, real_type length)",
                         "length > 0", "S_(step_length)", ["S_(step_length) == length"], "real_type l; STVR_step_length_set(&v, l);"),
 }
@@ -76,7 +86,14 @@ def build_sim(name):
     def build(ctx):
         loc, sig, req, assigns, ens, call = SIM_OPS[name]
         pc = ctx.func(STV, loc, SIM_RULES, name="SimTrackView::" + name)
-        return (HDR + SIM_LAYOUT + sig + "\n__CPROVER_requires(SIM_OK(self))\n__CPROVER_requires(%s)   /* own CELER_EXPECT/ASSERT + finiteness */\n" % req
+        pre = ""
+        if name == "reset_step_limit0":
+            # the two members it calls: their real bodies (not contracts), extracted the same way
+            for dep in ("reset_step_limit", "along_step_action_set"):
+                dl, dsig = SIM_OPS[dep][0], SIM_OPS[dep][1]
+                dpc = ctx.func(STV, dl, SIM_RULES, name="SimTrackView::" + dep)
+                pre += "static " + dsig + "\n{" + dpc.body + "}\n"
+        return (HDR + SIM_LAYOUT + pre + sig + "\n__CPROVER_requires(SIM_OK(self))\n__CPROVER_requires(%s)   /* own CELER_EXPECT/ASSERT + finiteness */\n" % req
                 + "__CPROVER_assigns(%s)\n" % assigns + "".join("__CPROVER_ensures(%s)\n" % e.split("   /*")[0] for e in ens) + "{" + pc.body + "}\n" + SIM_HARNESS % call)
     return build
 
@@ -263,6 +280,229 @@ void h_pra(void)
 """)
 
 
+# ---- PreStepExecutor -------------------------------------------------------------
+PRE = "src/celeritas/phys/detail/PreStepExecutor.hh"
+PRE_STUBS = """
+typedef struct { real_type step; ActionId action; } StepLimit;
+size_type g_thread_id; ActionId g_neutral_action, g_user_action;   /* track.thread_id(), core_scalars().along_step_{neutral,user}_action */
+unsigned g_cleared;          /* ghost: number of secondary-allocator clears */
+unsigned g_draws;            /* ghost: RNG-consuming calls */
+StepLimit g_limit;           /* ghost: what calc_physics_step_limit returned */
+void SECALLOC_clear(void) __CPROVER_assigns(g_cleared) __CPROVER_ensures(g_cleared == __CPROVER_old(g_cleared) + 1);
+/* reset_step_limit()   [enforced: c05_stv_reset_step_limit0] */
+void STV_reset_step_limit0(SimTrackView* self)
+__CPROVER_requires(VIEW_OK(self))
+__CPROVER_assigns(self->t->step_length, self->t->post_step_action, self->t->along_step_action)
+__CPROVER_ensures(self->t->step_length == __builtin_inf() && self->t->post_step_action == INVALID_ID && self->t->along_step_action == INVALID_ID)
+;
+/* reset_step_limit(sl): own EXPECTs   [enforced: c05_stv_reset_step_limit] */
+void STV_reset_step_limit(SimTrackView* self, StepLimit sl)
+__CPROVER_requires(VIEW_OK(self) && sl.step >= 0 && ((sl.action != INVALID_ID) != (sl.step == __builtin_inf())))
+__CPROVER_assigns(self->t->step_length, self->t->post_step_action)
+__CPROVER_ensures(self->t->step_length == sl.step && self->t->post_step_action == sl.action)
+;
+/* along_step_action(a)   [enforced: c05_stv_along_step_action_set] */
+void STV_along_step_action_set(SimTrackView* self, ActionId action)
+__CPROVER_requires(VIEW_OK(self))
+__CPROVER_assigns(self->t->along_step_action)
+__CPROVER_ensures(self->t->along_step_action == action)
+;
+/* reset_energy_deposition()   [enforced: c01_psv_reset] */
+void PSV_reset_energy_deposition(PhysicsStepView* self) __CPROVER_requires(VIEW_OK(self)) __CPROVER_assigns(self->t->energy_deposition) __CPROVER_ensures(self->t->energy_deposition == 0);
+void PSV_secondaries_clear(PhysicsStepView* self) __CPROVER_requires(VIEW_OK(self)) __CPROVER_assigns() __CPROVER_ensures(1);   /* outside this model */
+void PSV_element_clear(PhysicsStepView* self) __CPROVER_requires(VIEW_OK(self)) __CPROVER_assigns() __CPROVER_ensures(1);       /* outside this model */
+static bool PHV_has_interaction_mfp(PhysicsTrackView const* self) { return self->t->interaction_mfp > 0; }   /* body: state().interaction_mfp > 0 */
+/* interaction_mfp(mfp): own EXPECT mfp > 0 */
+void PHV_interaction_mfp_set(PhysicsTrackView* self, real_type mfp)
+__CPROVER_requires(VIEW_OK(self) && mfp > 0)
+__CPROVER_assigns(self->t->interaction_mfp)
+__CPROVER_ensures(self->t->interaction_mfp == mfp)
+;
+/* ExponentialDistribution: -log(u), u in [0,1): a value > 0 (possibly +inf); one draw (assumed) */
+real_type EXP_sample(void) __CPROVER_assigns(g_draws) __CPROVER_ensures(__CPROVER_return_value > 0 && g_draws == __CPROVER_old(g_draws) + 1);
+/* calc_physics_step_limit: requires a sampled MFP; returns a non-negative step with an action, or an infinite step without one (assumed here; see c05_calc_physics_step_limit) */
+StepLimit CPSL_call(CoreTrackView const* track)
+__CPROVER_requires(VIEW_OK(track) && track->t->interaction_mfp > 0)
+__CPROVER_assigns(g_limit, track->t->macro_xs, track->t->dedx_range)
+__CPROVER_ensures(__CPROVER_return_value.step >= 0 && ((__CPROVER_return_value.action != INVALID_ID) != (__CPROVER_return_value.step == __builtin_inf())))
+__CPROVER_ensures(g_limit.step == __CPROVER_return_value.step && g_limit.action == __CPROVER_return_value.action)
+;
+"""
+PRE_RULES = [
+    StripPP(r"CELERITAS_DEBUG", fires=1, note="`#if CELERITAS_DEBUG` block dropped (CELERITAS_DEBUG == 0, bound)"),
+] + Q_RULES + [
+    Rule(r"track\.thread_id\(\) == ThreadId\{0\}", "g_thread_id == 0", 1, note="thread id"),
+    Rule(r"auto alloc = track\.make_physics_step_view\(\)\.make_secondary_allocator\(\);", "", 1, note="allocator handle"),
+    Rule(r"alloc\.clear\(\);", "SECALLOC_clear();", "*", note="StackAllocator::clear (contract enforced in c16_clear) -> stub counting the calls"),
+    Rule(r"auto sim = track\.make_sim_view\(\);", "SimTrackView sim = CTV_make_sim_view(track);", 1, note="typed view handle"),
+    Rule(r"auto step = track\.make_physics_step_view\(\);", "PhysicsStepView step = CTV_make_physics_step_view(track);", 1, note="typed view handle"),
+    Rule(r"auto phys = track\.make_physics_view\(\);", "PhysicsTrackView phys = CTV_make_physics_view(track);", 1, note="typed view handle"),
+    Rule(r"auto mat = track\.make_material_view\(\);", "", 1, note="material view only forwarded to calc_physics_step_limit"),
+    Rule(r"auto particle = track\.make_particle_view\(\);", "ParticleTrackView particle = CTV_make_particle_view(track);", 1, note="typed view handle"),
+    Rule(r"sim\.status\(\)", "STV_status(&sim)", "+", note="view call"),
+    Rule(r"sim\.status\(TrackStatus::alive\);", "STV_status_set(&sim, TS_alive);", "*", note="view setter"),
+    Rule(r"sim\.reset_step_limit\(\);", "STV_reset_step_limit0(&sim);", "*", note="view call"),
+    Rule(r"sim\.reset_step_limit\(calc_physics_step_limit\(mat, particle, phys, step\)\);", "STV_reset_step_limit(&sim, CPSL_call(track));", 1, note="calc_physics_step_limit -> stub with contract"),
+    Rule(r"step\.reset_energy_deposition\(\);", "PSV_reset_energy_deposition(&step);", "*", note="view call"),
+    Rule(r"step\.secondaries\(\{\}\);", "PSV_secondaries_clear(&step);", "*", note="view call"),
+    Rule(r"step\.element\(\{\}\);", "PSV_element_clear(&step);", "*", note="view call"),
+    Rule(r"phys\.has_interaction_mfp\(\)", "PHV_has_interaction_mfp(&phys)", "*", note="view call"),
+    Rule(r"auto rng = track\.make_rng_engine\(\);", "", 1, note="RNG handle"),
+    Rule(r"ExponentialDistribution<real_type> sample_exponential;", "", 1, note="distribution object"),
+    Rule(r"phys\.interaction_mfp\(sample_exponential\(rng\)\);", "PHV_interaction_mfp_set(&phys, EXP_sample());", "*", note="view setter; sampler -> stub"),
+    Rule(r"\[&particle, &scalars = track\.core_scalars\(\)\]", "[&]", 1, note="lambda capture list"),
+    IIFE(["ActionId"]),
+    Rule(r"sim\.along_step_action\(", "STV_along_step_action_set(&sim, ", "*", note="view setter"),
+    Rule(r"particle\.charge\(\)", "PTV_charge(&particle)", "*", note="view call"),
+    Rule(r"scalars\.along_step_(neutral|user)_action", r"g_\1_action", 2, note="core scalars"),
+    Rule(r"TrackStatus::(\w+)", r"TS_\1", "+", note="enum class value (bound)"),
+]
+
+
+def build_pre_step(ctx):
+    pc = ctx.func(PRE, r"^PreStepExecutor::operator\(\)\(celeritas::CoreTrackView const& track\)", PRE_RULES, name="PreStepExecutor::operator()")
+    return (VHDR + PRE_STUBS + """
+#define T0(f) __CPROVER_old(track->t->f)
+void PRE_call(CoreTrackView const* track)
+__CPROVER_requires(VIEW_OK(track) && track->t->status >= 0 && track->t->status < 5 && track->t->status != TS_killed && !__CPROVER_isnand(track->t->interaction_mfp) && g_cleared == 0 && g_draws == 0)
+__CPROVER_assigns(g_cleared, g_draws, g_limit, track->t->status, track->t->step_length, track->t->post_step_action, track->t->along_step_action, track->t->energy_deposition, track->t->interaction_mfp, track->t->macro_xs, track->t->dedx_range)
+/* the shared secondary storage is cleared exactly once per step, by thread 0 only */
+__CPROVER_ensures(g_cleared == (g_thread_id == 0 ? 1 : 0))
+/* an empty slot stays empty and carries no limit and no actions; nothing is sampled for it */
+__CPROVER_ensures(T0(status) == TS_inactive ==> (track->t->status == TS_inactive && track->t->step_length == __builtin_inf() && track->t->post_step_action == INVALID_ID && track->t->along_step_action == INVALID_ID && g_draws == 0))
+/* status only moves forward: initializing/alive -> alive, errored stays errored */
+__CPROVER_ensures((T0(status) == TS_initializing || T0(status) == TS_alive) ==> track->t->status == TS_alive)
+__CPROVER_ensures(T0(status) == TS_errored ==> (track->t->status == TS_errored && g_draws == 0 && (__CPROVER_isnand(T0(step_length)) || track->t->step_length == T0(step_length))))
+/* every occupied slot starts its step with a zero local deposit */
+__CPROVER_ensures(T0(status) != TS_inactive ==> track->t->energy_deposition == 0)
+/* a live track: an MFP is sampled only when none is left (and is then positive); the step limit for this step is exactly the physics limit */
+__CPROVER_ensures(track->t->status == TS_alive ==> (track->t->interaction_mfp > 0 && (T0(interaction_mfp) > 0 ? (g_draws == 0 && track->t->interaction_mfp == T0(interaction_mfp)) : g_draws == 1)))
+__CPROVER_ensures(track->t->status == TS_alive ==> (track->t->step_length == g_limit.step && track->t->post_step_action == g_limit.action && track->t->step_length >= 0))
+/* along-step action by charge */
+__CPROVER_ensures(track->t->status == TS_alive ==> track->t->along_step_action == (track->t->charge == 0 ? g_neutral_action : g_user_action))
+{""" + pc.body + """}
+void h_pre(void)
+{
+    Track t; CoreTrackView v = {&t};
+    PRE_call(&v);
+    VERIF_CANARY();
+}
+""")
+
+
+# ---- calc_physics_step_limit -------------------------------------------------------
+PSU = "src/celeritas/phys/PhysicsStepUtils.hh"
+CPSL_STUBS = """
+typedef struct { real_type step; ActionId action; } StepLimit;
+#define NPROC 8
+size_type g_nproc;                       /* physics.num_particle_processes() */
+bool g_integral[NPROC];                  /* whether process p uses the integral approach (any) */
+real_type g_xs[NPROC];                   /* ghost: the cross section each calculator returns for process p (any non-negative finite value) */
+real_type g_stored[NPROC];               /* pstep.per_process_xs(p) */
+real_type g_range, g_eloss_step, g_fixed; ActionId g_fixed_action;
+static size_type PHV_num_particle_processes(PhysicsTrackView const* self) { return g_nproc; }
+static bool PHV_integral_xs_process(PhysicsTrackView const* self, size_type ppid) { __CPROVER_assert(ppid < g_nproc, "celer_expect: ppid < num_particle_processes"); return g_integral[ppid]; }
+static real_type PHV_calc_max_xs(PhysicsTrackView const* self, size_type ppid) { __CPROVER_assert(ppid < g_nproc && g_integral[ppid], "PHV_calc_max_xs.precondition: integral process"); return g_xs[ppid]; }
+static real_type PHV_calc_xs(PhysicsTrackView const* self, size_type ppid) { __CPROVER_assert(ppid < g_nproc, "celer_expect: ppid < num_particle_processes"); return g_xs[ppid]; }
+static void PSV_per_process_xs_set(PhysicsStepView* self, size_type ppid, real_type xs) { __CPROVER_assert(ppid < g_nproc, "celer_expect: ppid < num_particle_processes"); g_stored[ppid] = xs; }
+static void PSV_macro_xs_set(PhysicsStepView* self, real_type xs) { __CPROVER_assert(xs >= 0, "celer_expect: PhysicsStepView::macro_xs(xs) xs >= 0"); self->t->macro_xs = xs; }
+static real_type PHV_interaction_mfp(PhysicsTrackView const* self) { return self->t->interaction_mfp; }
+static real_type RANGE_calc(PhysicsTrackView const* self, size_type ppid, real_type energy) { __CPROVER_assert(ppid != INVALID_ID && energy > 0, "RangeCalculator precondition: valid process, energy > 0"); return g_range; }
+static void PHV_dedx_range_set(PhysicsTrackView* self, real_type r) { __CPROVER_assert(r > 0, "celer_expect: PhysicsTrackView::dedx_range(r) r > 0"); self->t->dedx_range = r; }
+/* range_to_step: own ASSERT range >= 0; 0 < step <= range (its CELER_ENSURE; nonlinear FP, assumed) */
+static real_type PHV_range_to_step(PhysicsTrackView const* self, real_type range) { __CPROVER_assert(range >= 0, "celer_assert: range_to_step range >= 0"); return g_eloss_step; }
+/* IEEE division lemma (assumed): a > 0, b >= 0  =>  a / b >= 0 (possibly +inf), and b == 0 => a / b == +inf */
+real_type FDIV_pos(real_type a, real_type b)
+__CPROVER_requires(a > 0 && b >= 0)
+__CPROVER_assigns()
+__CPROVER_ensures(__CPROVER_return_value >= 0 && (b == 0 ==> __CPROVER_return_value == __builtin_inf()))
+;
+"""
+CPSL_RULES = Q_RULES + [
+    Rule(r"using VGT = ValueGridType;", "", 1, note="enum alias dropped"),
+    Rule(r"for \(auto ppid : range\(ParticleProcessId\{physics\.num_particle_processes\(\)\}\)\)", "for (size_type ppid = 0; ppid < PHV_num_particle_processes(physics); ++ppid)", 1, note="range-for over OpaqueId range -> counting loop"),
+    Rule(r"if \(auto const& process = physics\.integral_xs_process\(ppid\)\)", "if (PHV_integral_xs_process(physics, ppid))", 1, note="if-with-declaration on an optional process record"),
+    Rule(r"physics\.calc_max_xs\(\s*process, ppid, material\.make_material_view\(\), particle\.energy\(\)\)", "PHV_calc_max_xs(physics, ppid)", 1, note="cross-section calculator -> stub (any non-negative finite value)"),
+    Rule(r"physics\.calc_xs\(\s*ppid, material\.make_material_view\(\), particle\.energy\(\)\)", "PHV_calc_xs(physics, ppid)", 1, note="cross-section calculator -> stub (any non-negative finite value)"),
+    Rule(r"pstep\.per_process_xs\(ppid\) = process_xs;", "PSV_per_process_xs_set(pstep, ppid, process_xs);", "*", note="reference-returning accessor -> setter"),
+    Rule(r"pstep\.macro_xs\(total_macro_xs\);", "PSV_macro_xs_set(pstep, total_macro_xs);", "*", note="view setter"),
+    Rule(r"CELER_ASSERT\(total_macro_xs > 0 \|\| !particle\.is_stopped\(\)\);", "/* NOT PROMOTED: CELER_ASSERT(total_macro_xs > 0 || !particle.is_stopped()) -- a stopped particle has an at-rest process with positive cross section (data) */", (0, 1), note="in-body assert not promoted (depends on process data)"),
+    Rule(r"StepLimit limit;", "StepLimit limit = {0, INVALID_ID};", 1, note="default member initializers"),
+    Rule(r"physics\.scalars\(\)\.(discrete|range)_action\(\)", r"physics->t->\1_action", "*", note="scalars accessor"),
+    Rule(r"physics\.scalars\(\)\.fixed_step_limiter", "g_fixed", "*", note="scalars field"),
+    Rule(r"physics\.scalars\(\)\.fixed_step_action", "g_fixed_action", "*", note="scalars field"),
+    Rule(r"particle\.is_stopped\(\)", "PTV_is_stopped(particle)", "*", note="view call"),
+    Rule(r"physics\.interaction_mfp\(\) / total_macro_xs", "FDIV_pos(PHV_interaction_mfp(physics), total_macro_xs)", 1, note="FP division -> assumed IEEE lemma"),
+    Rule(r"if \(auto ppid = physics\.eloss_ppid\(\)\)", "size_type ppid = PHV_eloss_ppid(physics);\n        if (ppid != INVALID_ID)", 1, note="if-with-declaration on an OpaqueId"),
+    Rule(r"auto grid_id = physics\.value_grid\(VGT::range, ppid\);", "", 1, note="grid id only forwarded to the calculator"),
+    Rule(r"auto calc_range = physics\.make_calculator<RangeCalculator>\(grid_id\);", "", 1, note="calculator object"),
+    Rule(r"calc_range\(particle\.energy\(\)\)", "RANGE_calc(physics, ppid, PTV_energy(particle))", 1, note="RangeCalculator call -> stub (body under contract in c14_range_call)"),
+    Rule(r"physics\.dedx_range\(range\);", "PHV_dedx_range_set(physics, range);", "*", note="view setter"),
+    Rule(r"physics\.range_to_step\(range\)", "PHV_range_to_step(physics, range)", 1, note="view call -> stub with its CELER_ENSURE as contract"),
+    Rule(r"physics\.num_particle_processes\(\)", "PHV_num_particle_processes(physics)", "*", note="view call"),
+    Rule(r"limit\.action = \{\};", "limit.action = INVALID_ID;", 1, note="default OpaqueId"),
+    Rule(r"physics\.has_interaction_mfp\(\)", "(physics->t->interaction_mfp > 0)", 1, note="view call (body: interaction_mfp > 0)"),
+    LoopContracts([
+        "    __CPROVER_assigns(ppid, total_macro_xs, __CPROVER_object_whole(g_stored))\n"
+        "    __CPROVER_loop_invariant(ppid <= g_nproc && total_macro_xs == SUMSPEC(ppid) && total_macro_xs >= 0 && total_macro_xs <= BOUND(ppid))\n"
+        "    __CPROVER_loop_invariant(g_nproc == 0 ==> total_macro_xs == 0)\n"
+        "    __CPROVER_loop_invariant(g_w < ppid ==> g_stored[g_w] == g_xs[g_w])\n"
+        "    __CPROVER_decreases(g_nproc - ppid)\n"]),
+]
+
+
+def build_cpsl(ctx):
+    pc = ctx.func(PSU, r"^calc_physics_step_limit\(MaterialTrackView const& material,", CPSL_RULES, name="calc_physics_step_limit")
+    return (VHDR + CPSL_STUBS + """
+size_type g_w;   /* ghost witness process */
+/* the specified total: the left fold 0 + xs[0] + xs[1] + ... in the code's own floating-point order */
+#define S1 (0.0 + g_xs[0])
+#define S2 (S1 + g_xs[1])
+#define S3 (S2 + g_xs[2])
+#define S4 (S3 + g_xs[3])
+#define S5 (S4 + g_xs[4])
+#define S6 (S5 + g_xs[5])
+#define S7 (S6 + g_xs[6])
+#define S8 (S7 + g_xs[7])
+#define SUMSPEC(p) ((p) == 0 ? 0.0 : (p) == 1 ? S1 : (p) == 2 ? S2 : (p) == 3 ? S3 : (p) == 4 ? S4 : (p) == 5 ? S5 : (p) == 6 ? S6 : (p) == 7 ? S7 : S8)
+#define XS_OK(i) (g_xs[i] >= 0 && g_xs[i] <= 0x1p990)
+/* p * 2^990 (exact) */
+#define BOUND(p) ((p) == 0 ? 0.0 : (p) == 1 ? 0x1p990 : (p) == 2 ? 0x1p991 : (p) == 3 ? 0x1.8p991 : (p) == 4 ? 0x1p992 : (p) == 5 ? 0x1.4p992 : (p) == 6 ? 0x1.8p992 : (p) == 7 ? 0x1.cp992 : 0x1p993)
+StepLimit CPSL_call(ParticleTrackView const* particle, PhysicsTrackView* physics, PhysicsStepView* pstep)
+__CPROVER_requires(VIEW_OK(particle) && VIEW_OK(physics) && VIEW_OK(pstep) && physics->t == particle->t && pstep->t == particle->t)
+__CPROVER_requires(physics->t->interaction_mfp > 0)        /* own CELER_EXPECT: has_interaction_mfp() */
+__CPROVER_requires(g_nproc <= NPROC && g_w < NPROC && particle->t->energy >= 0)
+/* cross sections: non-negative, bounded (so that their sum is finite) */
+__CPROVER_requires(XS_OK(0) && XS_OK(1) && XS_OK(2) && XS_OK(3) && XS_OK(4) && XS_OK(5) && XS_OK(6) && XS_OK(7))
+/* range table / range_to_step contracts (assumed): range > 0, 0 < step <= range */
+__CPROVER_requires(g_range > 0 && g_eloss_step > 0 && g_eloss_step <= g_range && !__CPROVER_isnand(g_fixed))
+__CPROVER_requires(physics->t->discrete_action != INVALID_ID && physics->t->range_action != INVALID_ID && g_fixed_action != INVALID_ID)
+__CPROVER_assigns(__CPROVER_object_whole(g_stored), physics->t->macro_xs, physics->t->dedx_range)
+/* the total stored for the step is the sum over this particle's processes; each process's own value is stored under its id */
+__CPROVER_ensures(pstep->t->macro_xs == SUMSPEC(g_nproc) && pstep->t->macro_xs >= 0)
+__CPROVER_ensures(g_w < g_nproc ==> g_stored[g_w] == g_xs[g_w])
+/* a stopped particle interacts at rest: zero step, discrete action */
+__CPROVER_ensures(particle->t->energy == 0 ==> (__CPROVER_return_value.step == 0 && __CPROVER_return_value.action == physics->t->discrete_action))
+/* otherwise the limit is never negative and never exceeds any of the competing limits */
+__CPROVER_ensures(__CPROVER_return_value.step >= 0)
+__CPROVER_ensures((particle->t->energy != 0 && physics->t->eloss_ppid != INVALID_ID) ==> (__CPROVER_return_value.step <= g_eloss_step && physics->t->dedx_range == g_range
+      && ((g_fixed > 0) ==> __CPROVER_return_value.step <= g_fixed)))
+/* the action names the limit that won: range action => the step is the continuous-loss step; fixed action => the fixed limit */
+__CPROVER_ensures((particle->t->energy != 0 && __CPROVER_return_value.action == physics->t->range_action && physics->t->range_action != physics->t->discrete_action && physics->t->range_action != g_fixed_action) ==> __CPROVER_return_value.step == g_eloss_step)
+__CPROVER_ensures((particle->t->energy != 0 && __CPROVER_return_value.action == g_fixed_action && g_fixed_action != physics->t->discrete_action && g_fixed_action != physics->t->range_action) ==> __CPROVER_return_value.step == g_fixed)
+/* an action is missing only for a particle without processes, and then the step is infinite (what SimTrackView::reset_step_limit expects) */
+__CPROVER_ensures(__CPROVER_return_value.action == INVALID_ID ==> (g_nproc == 0 && particle->t->energy != 0 && __CPROVER_return_value.step == __builtin_inf()))
+{""" + pc.body + """}
+void h_cpsl(void)
+{
+    Track t; ParticleTrackView pa = {&t}; PhysicsTrackView ph = {&t}; PhysicsStepView ps = {&t};
+    for (unsigned i = 0; i < NPROC; ++i) { unsigned b; g_integral[i] = (b != 0); }
+    CPSL_call(&pa, &ph, &ps);
+    VERIF_CANARY();
+}
+""")
+
+
 LEAF_CHECKS = ["--bounds-check", "--pointer-check"]
 UNITS = [
     Unit("c05_stv_" + nm, build_sim(nm), "h_sim", enforce=SIM_OPS[nm][1].split("(")[0].split()[-1], timeout=120, backend=["sat", "cvc5"],
@@ -282,4 +522,15 @@ UNITS = [
          must_have=[r"PRA_call.postcondition", r"celer_assert", r"STV_step_length_set.precondition", r"PROP_call.precondition"], checks=LEAF_CHECKS,
          assumptions=["propagator satisfies the C08 contract 0 < distance <= step (for the field propagator 'up to rounding' is NOT decided)", "`#if CELERITAS_DEBUG` blocks compiled out"],
          note="PropagationApplier: 0 < len' <= len; shortened => boundary/propagation-limit/tracking-cut action; boundary flag => boundary action with len' = distance; zero-length step untouched; in-body CELER_ASSERTs hold"),
+    Unit("c05_pre_step", build_pre_step, "h_pre", enforce="PRE_call", object_bits=10,
+         replace=["SECALLOC_clear", "STV_reset_step_limit0", "STV_reset_step_limit", "STV_along_step_action_set", "STV_status_set", "PSV_reset_energy_deposition", "PSV_secondaries_clear", "PSV_element_clear", "PHV_interaction_mfp_set", "EXP_sample", "CPSL_call"],
+         timeout=300, backend=["sat", "cvc5"],
+         must_have=[r"PRE_call.postcondition", r"celer_assert", r"CPSL_call.precondition", r"STV_reset_step_limit.precondition", r"PHV_interaction_mfp_set.precondition"], checks=LEAF_CHECKS,
+         assumptions=["calc_physics_step_limit returns step >= 0 with (action valid) xor (step == inf) (assumed; its body is under contract in c05_calc_physics_step_limit for the clauses stated there)", "ExponentialDistribution returns a value > 0 (-log of a canonical in [0,1))", "`#if CELERITAS_DEBUG` block compiled out"],
+         note="PreStepExecutor: secondary storage cleared once by thread 0; inactive slots untouched apart from the limit reset; status initializing/alive -> alive, errored stays; deposit reset; MFP sampled only when exhausted; step limit := physics limit; along-step action by charge; callee preconditions hold"),
+    Unit("c05_calc_physics_step_limit", build_cpsl, "h_cpsl", enforce="CPSL_call", replace=["FDIV_pos"], loop_contracts=True, timeout=600, backend=["sat", "kissat", "cvc5"], object_bits=10, unwind=9,
+         must_have=[r"CPSL_call.postcondition", r"loop_invariant_step", r"celer_expect", r"FDIV_pos.precondition", r"PHV_calc_max_xs.precondition"], checks=LEAF_CHECKS,
+         assumptions=["cross-section calculators return non-negative bounded values; RangeCalculator > 0; range_to_step 0 < step <= range (its CELER_ENSURE; nonlinear FP)", "IEEE division lemma a>0,b>=0 => a/b>=0, b==0 => +inf (assumed)",
+                      "NOT PROMOTED: CELER_ASSERT(total_macro_xs > 0 || !is_stopped) (process data)", "an infinite sampled MFP (u == 0) or an overflowing mfp/xs gives an infinite step WITH an action: reset_step_limit's debug-only EXPECT is not provable there; stated, not decided"],
+         note="calc_physics_step_limit: macro xs = sum over processes (any number <= 8 by loop contract), per-process values stored under their ids; stopped => zero step with the discrete action; otherwise 0 <= step <= continuous-loss step and <= fixed limit, action names the winning limit; no action only for a particle without processes (infinite step)"),
 ]
